@@ -27,7 +27,15 @@ fn run_case(case: &Case) -> Result<Vec<OpOut>, String> {
 fn run_case2(case: &Case) -> (Vec<OpOut>, Option<String>) {
     let partial: std::sync::Arc<std::sync::Mutex<Vec<OpOut>>> = Default::default();
     let p2 = partial.clone();
-    let r = run_case_inner(case, p2);
+    let case2 = case.clone();
+    // watchdog: the case runs on its own thread; a synchronous self-deadlock or livelock inside the
+    // engine (which no tokio timeout can interrupt) is reported as a hang and the thread is abandoned
+    let (tx, rx) = std::sync::mpsc::channel();
+    let _ = std::thread::Builder::new().stack_size(256 << 20).spawn(move || { let r = run_case_inner(&case2, p2); let _ = tx.send(r); });
+    let r = match rx.recv_timeout(std::time::Duration::from_secs(8)) {
+        Ok(r) => r,
+        Err(_) => Err("hang (watchdog): the case did not finish within 8 s of wall time".to_string()),
+    };
     let outs = partial.lock().unwrap().clone();
     match r { Ok(()) => (outs, None), Err(m) => (outs, Some(m)) }
 }
@@ -226,6 +234,7 @@ fn main() {
             cases.push(Case { program: p, ops });
         }
     }
+    if let Some(i) = a.rest.iter().position(|x| x == "--dump") { let idx: usize = a.rest[i + 1].parse().unwrap(); print!("{}", cases[idx].render()); return; }
     for case in &cases {
         evals += 1;
         let text = case.render();
